@@ -9,13 +9,15 @@ _REP = ["src/HttpReply.cc", "src/HttpBody.cc", "src/HttpHdrCc.cc", "src/HttpHdrC
 _U = TOK + ["src/BodyPipe.cc"] + _JOBS + _HDR + _REQ + _REP + ["src/http.cc", "src/clients/Client.cc", "src/adaptation/Initiator.cc", "src/CommCalls.cc",
             "src/comm/Connection.cc", "src/base/JobWait.cc", "src/http/one/TeChunkedParser.cc", "src/http/one/Tokenizer.cc", "src/http/Stream.cc"]
 _e = lambda n, b, r, **kw: dict(name=n, bounds=b, reach=list(r), **dict(dict(sample_every=197, max_samples=3), **kw))
+_KNOWN = [dict(name="c01_known_bodiless_extra_bytes", known=True, reach=[], max_samples=0, sample_every=0, bounds="KNOWN FINDING C01-bodiless-extra-bytes-stored only: Content-Length reply (declared 0..2) with status 204 or 304 or to a HEAD request, 1..2 bytes arriving together with the header block; strict assertions; its violations are listed in known_findings.json and printed as KNOWN-FINDING"),
+          dict(name="c01_known_overread_pooled", known=True, reach=[], max_samples=0, sample_every=0, bounds="KNOWN FINDING C01-overread-connection-pooled only: a reply that may have a body with Content-Length: 0 plus 1 more byte, or a complete chunked 1-byte body plus 1 more byte, all arriving together with the header block; strict assertions; its violations are listed in known_findings.json and printed as KNOWN-FINDING")]
 _L = ("whole", "bodiless", "premature-eof", "read-error", "in-progress", "pooled")
 _EX = ("reply status symbolic 200..599, Connection header %s, request keep-alive and request-completely-sent flags symbolic; 0..all origin bytes arrive together with the header block, then "
        "%d network events from {segment of symbolic length%s, EOF, read error, EAGAIN}. After every event: stored bytes = the origin's body bytes received so far, in order (store writes contiguous); "
        "marked 'stored whole' only if the framing says complete; complete => whole and no failure; EOF before the end => failure reported, never whole; read error => failure; connection "
        "pooled only after a complete message that ended exactly where reading stopped, with keep-alive on both sides and the request completely sent; completion ends the job and closes or pools the connection")
 SPEC = dict(
-    harness="C01_relay.cc", units=_U, defines=["C01_SHOW_CANDIDATES=1"], unit_flags={"compat/xstring.cc": ["-Dxstrdup=vf_unused_squid_xstrdup"]},
+    harness="C01_relay.cc", units=_U, unit_flags={"compat/xstring.cc": ["-Dxstrdup=vf_unused_squid_xstrdup"]},
     scope="kernel",
     scope_note="kernel decided: (A) from the parsed reply header on, HttpStateData::readReply/processReply/processReplyBody/writeReplyBody/decodeAndWriteReplyBody (real TeChunkedParser)/"
                "truncateVirginBody/persistentConnStatus/statusIfComplete/markPrematureReplyBodyEofFailure and Client::addVirginReplyBody/storeReplyBody/serverComplete/completeForwarding, "
@@ -42,7 +44,7 @@ SPEC = dict(
                "present or not, method GET/HEAD, server connection open or closed", ("persistent", "complete-close", "incomplete")),
             _e("c01_chunk_small", "0..3 body buffers of 1..3 symbolic bytes through packChunk(), with or without the final empty buffer (last-chunk); strict reference decoder and real TeChunkedParser", ("complete", "open"), sample_every=7),
             _e("c01_chunk_hex", "one body buffer of 9, 10, 15, 16 or 31 symbolic bytes (chunk-size 9, A, F, 10, 1F), optionally followed by one of 2 bytes, with or without the last-chunk", ("complete", "open"), sample_every=3),
-        ],
+        ] + _KNOWN,
         thorough=[
             _e("c01_body_length", "as quick with 0..4 body bytes and 4 events", _L, sample_every=1997),
             _e("c01_body_chunked", "as quick with 0..3 body bytes and 4 events", _L, sample_every=9973),
@@ -50,7 +52,7 @@ SPEC = dict(
             _e("c01_status", "as quick", ("persistent", "complete-close", "incomplete")),
             _e("c01_chunk_small", "as quick with buffers of 1..4 bytes", ("complete", "open"), sample_every=37),
             _e("c01_chunk_hex", "as quick with one buffer of every size 9..36", ("complete", "open"), sample_every=7),
-        ]),
+        ] + _KNOWN),
     timeout=dict(quick=400, thorough=2400),
     stubs=["Comm::Read() keeps the callback, the harness dials it; Comm::ReadNow() returns the next segment of the origin's byte stream (at most the size asked for), ENDFILE, COMM_ERROR or "
            "INPROGRESS as the event says; comm_add/remove_close_handler, commSetConnTimeout/commUnsetConnTimeout, fd_bytes are no-ops, _comm_close is counted; fde::Table is 8 zeroed entries; "
@@ -66,10 +68,10 @@ SPEC = dict(
            "c01_chunk_*: Http::Stream real (no connection), ClientHttpRequest zeroed raw memory with request set (flags.chunkedReply), no Range",
            "HttpRequest, MasterXaction, Comm::Connection real; MemPools::create() = plain heap; bitcode build only: simple _Prime_rehash_policy (AsyncJob registry); ping_data constructor, "
            "null_string, StatHist no-ops; SquidConfig Config zero-initialised except read_ahead_gap 16 KB, relaxed_header_parser on; xstrdup engine model", "debugs() disabled"],
-    assumptions=["KNOWN-FINDING candidate excluded by vf_assume: no origin bytes follow the header block of a reply that cannot have a body (204, 304, reply to HEAD) -- such bytes are written "
-                 "to the store as body bytes (writeReplyBody(): truncateVirginBody() returns early when !expectingBody()); replay evidence in the report",
-                 "KNOWN-FINDING candidate excluded by vf_assume: no read goes beyond the end of a response with Content-Length: 0 or chunked framing -- such bytes are dropped and the connection "
-                 "still returns to the idle pool (persistentConnStatus() checks payloadTruncated only for Content-Length > 0)",
+    assumptions=["known finding C01-bodiless-extra-bytes-stored: origin bytes following the header block of a reply that cannot have a body (204, 304, reply to HEAD) are excluded from the "
+                 "normal entries by vf_assume and examined by c01_known_bodiless_extra_bytes",
+                 "known finding C01-overread-connection-pooled: reads beyond the end of a response with Content-Length: 0 or chunked framing are excluded from the normal entries by vf_assume "
+                 "and examined by c01_known_overread_pooled (for the bytes that arrive with the header block; later reads beyond a chunked body's final CRLF stay excluded)",
                  "one main-loop iteration = one network event followed by AsyncCallQueue::fire()",
                  "chunked bodies: segment ends restricted to 1-2 bytes ahead or chunk-structure boundaries (arbitrary segmentation of the framing itself is C24's subject)"],
     outside="bodies, event counts and chunk counts beyond the bounds; chunk extensions and trailers from the origin (C24); 1xx and HTTP/0.9 replies in the body entries; replies whose header "
